@@ -29,6 +29,7 @@ Cases ==
     \cup {Case(st, "cancelUnbonding", v, a, h) : st \in {"base", "wdOther", "slashed"}, v \in {"V1", "V2", "unknown"},
                                                   a \in {"0", "1", "ubd", "small", "2^255"}, h \in {"ok", "wrong"}}
     \cup {Case(st, "withdrawRewards", v, "0", "ok") : st \in States, v \in ValsC}
+    \cup {Case(st, "ibcTransfer", "V1", a, "ok") : st \in {"base", "wdOther", "slashed"}, a \in {"0", "1", "small", "eqBal", "gtBal", "2^255"}}
     \cup {Case(st, m, "V1", "0", "ok") : st \in States, m \in {"claimRewards", "setWithdrawAddress", "withdrawCommission"}}
     \* resetting the withdraw address to the delegator itself
     \cup {[Case(st, "setWithdrawAddress", "V1", "0", "ok") EXCEPT !.to = "self"] : st \in States}
@@ -40,7 +41,7 @@ Spec == Init /\ [][Next]_vars
 
 \* sanity of the case space itself (checked exhaustively): every method of the statement occurs
 \* with a valid and an invalid validator, with amounts below, at and above the relevant bound
-Methods == {"delegate", "undelegate", "redelegate", "cancelUnbonding", "withdrawRewards", "claimRewards", "setWithdrawAddress", "withdrawCommission"}
+Methods == {"delegate", "undelegate", "redelegate", "cancelUnbonding", "withdrawRewards", "claimRewards", "setWithdrawAddress", "withdrawCommission", "ibcTransfer"}
 ASSUME \A m \in Methods : \E c \in Cases : c.m = m
 ASSUME \A m \in {"delegate", "undelegate", "redelegate"} : \A a \in SpendAmts, v \in ValsC : \E c \in Cases : c.m = m /\ c.amt = a /\ c.val = v
 
